@@ -445,6 +445,38 @@ func c19HistCheck(c C19HistCase, rec *evid.Rec) error {
 		sameType[op.Type%3]++
 		err, hung := withWatchdog(where, 20*time.Second, func() error {
 			switch op.Kind {
+			case "unnamed-infer":
+				// unnamed Go types (and same-named types of different scopes) bound with a nil schema: every type
+				// gets its own inferred schema, whatever was bound before
+				switch op.Seed % 4 {
+				case 0:
+					vals := []string{"a", fmt.Sprint("s", op.Seed)}
+					got, err := nodes.Read(bindnode.Wrap(&vals, nil))
+					if err != nil || !val.Equal(got, val.MkList(val.MkString(vals[0]), val.MkString(vals[1])), val.Ordered) {
+						return fmt.Errorf("Wrap(*[]string, nil) reads %s (err %v)", got.Short(100), err)
+					}
+				case 1:
+					vals := []int64{int64(op.Seed), 7}
+					got, err := nodes.Read(bindnode.Wrap(&vals, nil))
+					if err != nil || !val.Equal(got, val.MkList(val.MkInt(vals[0]), val.MkInt(7)), val.Ordered) {
+						return fmt.Errorf("Wrap(*[]int64, nil) reads %s (err %v)", got.Short(100), err)
+					}
+				case 2:
+					type Scoped struct{ A string }
+					v := Scoped{A: "x"}
+					got, err := nodes.Read(bindnode.Wrap(&v, nil))
+					if err != nil || !val.Equal(got, val.MkMap(val.Ent{K: "A", V: val.MkString("x")}), val.Ordered) {
+						return fmt.Errorf("Wrap of a function-scoped struct {A string} reads %s (err %v)", got.Short(100), err)
+					}
+				default:
+					type Scoped struct{ B int64 }
+					v := Scoped{B: 5}
+					data, err := ipld.Marshal(dagjson.Encode, &v, nil)
+					if err != nil || string(data) != `{"B":5}` {
+						return fmt.Errorf("Marshal of another function-scoped struct also named Scoped {B int64} gives %q (err %v)", data, err)
+					}
+				}
+				return nil
 			case "refused-infer":
 				// a Go type inference documents it cannot handle: it refuses by panicking; whatever it does,
 				// the calls that follow must be unaffected (and must not hang)
@@ -532,12 +564,12 @@ func c19HistCheck(c C19HistCase, rec *evid.Rec) error {
 
 var c19Hist = evid.Part[C19HistCase]{
 	Prop: "C19", Name: "histories", Quick: 400, Thorough: 100000,
-	Rule: "history of ≤12 binding calls (Wrap with inferred schema, Prototype with inferred schema, Wrap with an explicit schema, ipld.Marshal and ipld.Unmarshal with a nil schema, and calls with Go types that inference refuses) over three named Go struct types that share nested named types and slice types, in one process; every call must succeed and read as the Go value; non-trivial = ≥2 calls on the same named type; distinct by history",
+	Rule: "history of ≤12 binding calls (Wrap with inferred schema, Prototype with inferred schema, Wrap with an explicit schema, ipld.Marshal and ipld.Unmarshal with a nil schema, calls with Go types that inference refuses, and with unnamed / same-named function-scoped types) over three named Go struct types that share nested named types and slice types, in one process; every call must succeed and read as the Go value; non-trivial = ≥2 calls on the same named type; distinct by history",
 	Gen: func(t *rapid.T) C19HistCase {
 		n := rapid.IntRange(1, 12).Draw(t, "n")
 		var c C19HistCase
 		for i := 0; i < n; i++ {
-			c.Ops = append(c.Ops, C19HistOp{Kind: rapid.SampledFrom([]string{"wrap-infer", "proto-infer", "wrap-explicit", "marshal-infer", "unmarshal-infer", "refused-infer"}).Draw(t, "kind"),
+			c.Ops = append(c.Ops, C19HistOp{Kind: rapid.SampledFrom([]string{"wrap-infer", "proto-infer", "wrap-explicit", "marshal-infer", "unmarshal-infer", "refused-infer", "unnamed-infer"}).Draw(t, "kind"),
 				Type: rapid.IntRange(0, 2).Draw(t, "type"), Seed: rapid.IntRange(0, 20).Draw(t, "seed")})
 		}
 		return c
